@@ -1,3 +1,4 @@
 import TinyFlux.Audit.Tool
 import TinyFlux.Props.C14
+import TinyFlux.Props.C14State
 #audit TinyFlux.Props.C14
